@@ -16,6 +16,7 @@ type structGen struct {
 	queries func(g *Gen, i int, pool [][]byte) []Tok
 	opName  func(Tok) string
 	isQuery func(op Tok) bool
+	redis   bool
 }
 
 func subGen(seed int64) *Gen { return &Gen{R: rand.New(rand.NewSource(seed))} }
@@ -180,6 +181,17 @@ var structGens = []structGen{
 		isQuery: func(op Tok) bool { k := op.L[0].I(); return k == tkValues || k == tkHeap }},
 }
 
+func redisVariant(sg structGen, name string, mk func() Machine) structGen {
+	sg.name = name
+	sg.mk = mk
+	sg.redis = true
+	return sg
+}
+
+var structGensRedis = []structGen{
+	redisVariant(structGens[0], "cms-redis", func() Machine { return &cmsRedis{} }),
+}
+
 // pairedQueries interleaves the same queries on instances a and b (a first).
 func pairedQueries(sg structGen, g *Gen, a, b int, pool [][]byte) []Tok {
 	sub := g.R.Int63()
@@ -223,8 +235,8 @@ func genPersist(sg structGen, mode string) func(g *Gen, tier string) *Case {
 		ops = append(ops, ops2...)
 		switch mode {
 		case "C11":
-			w := len(ops)
-			ops = append(ops, TL(TNi(opWriteTo), TNi(0)))
+			w := 1000 + g.Intn(1000)
+			ops = append(ops, TL(TNi(opWriteTo), TNi(0), TNi(w)))
 			var suffix []byte
 			if g.Chance(0.5) {
 				suffix = make([]byte, 1+g.Intn(40))
@@ -233,15 +245,22 @@ func genPersist(sg structGen, mode string) func(g *Gen, tier string) *Case {
 			ops = append(ops, TL(TNi(opReadFrom), TNi(1), TNi(w), TBs(suffix)))
 			ops = append(ops, TL(TNi(opEquals), TNi(0), TNi(1)), TL(TNi(opEquals), TNi(1), TNi(0)))
 			ops = append(ops, pairedQueries(sg, g, 0, 1, pool)...)
-			ops = append(ops, TL(TNi(opWriteTo), TNi(1)))
+			ops = append(ops, TL(TNi(opWriteTo), TNi(1), TNi(2500)))
 		case "C18":
-			w := len(ops)
-			ops = append(ops, TL(TNi(opWriteTo), TNi(0)), TL(TNi(opPrefixBin), TNi(1), TNi(w)))
-			e := len(ops)
-			ops = append(ops, TL(TNi(opExport), TNi(0)), TL(TNi(opPrefixJS), TNi(1), TNi(e)))
+			w := 1000 + g.Intn(1000)
+			ops = append(ops, TL(TNi(opWriteTo), TNi(0), TNi(w)), TL(TNi(opPrefixBin), TNi(1), TNi(w)))
+			e := 3000 + g.Intn(1000)
+			ops = append(ops, TL(TNi(opExport), TNi(0), TNi(e)), TL(TNi(opPrefixJS), TNi(1), TNi(e)))
 		case "C10":
-			e := len(ops)
-			ops = append(ops, TL(TNi(opExport), TNi(0)), TL(TNi(opImport), TNi(1), TNi(e)))
+			e := 3000 + g.Intn(1000)
+			if sg.redis {
+				// original's answers before the import (must be untouched by an import under new keys)
+				ops = append(ops, sg.queries(subGen(7), 0, pool)...)
+				ops = append(ops, TL(TNi(opExport), TNi(0), TNi(e)), TL(TNi(opImport), TNi(1), TNi(e), TNi(1)))
+				ops = append(ops, sg.queries(subGen(7), 0, pool)...)
+			} else {
+				ops = append(ops, TL(TNi(opExport), TNi(0), TNi(e)), TL(TNi(opImport), TNi(1), TNi(e)))
+			}
 			ops = append(ops, TL(TNi(opEquals), TNi(0), TNi(1)), TL(TNi(opEquals), TNi(1), TNi(0)))
 			ops = append(ops, pairedQueries(sg, g, 0, 1, pool)...)
 			// further common updates, then compare again
@@ -252,7 +271,7 @@ func genPersist(sg structGen, mode string) func(g *Gen, tier string) *Case {
 			}
 			ops = append(ops, TL(TNi(opEquals), TNi(0), TNi(1)), TL(TNi(opEquals), TNi(1), TNi(0)))
 			ops = append(ops, pairedQueries(sg, g, 0, 1, pool)...)
-			ops = append(ops, TL(TNi(opExport), TNi(1)))
+			ops = append(ops, TL(TNi(opExport), TNi(1), TNi(4500)))
 		}
 		return &Case{Ops: ops}
 	}
@@ -286,6 +305,33 @@ func genC17(sg structGen) func(g *Gen, tier string) *Case {
 		for k, n := 0, g.Intn(3); k < n; k++ {
 			ops = append(ops, sg.extra(g, g.Intn(2), pool)...)
 			check()
+		}
+		return &Case{Ops: ops}
+	}
+}
+
+// genC09: a Redis-backed structure on instance 0; a second handle (instance 1) is obtained from its
+// metadata key at a random point; further operations go through either handle, and after each one
+// both handles answer the same queries. Variant: the structure first imports another export
+// (under new keys) and is re-attached afterwards.
+func genC09(sg structGen) func(g *Gen, tier string) *Case {
+	return func(g *Gen, tier string) *Case {
+		ops, pool := sg.build(g, 0, tier)
+		if g.Chance(0.3) {
+			// 0 imports the export of an unrelated structure 2 before being re-attached
+			ops2, _ := sg.build(g, 2, tier)
+			e := 3000 + g.Intn(1000)
+			ops = append(ops, ops2...)
+			ops = append(ops, TL(TNi(opExport), TNi(2), TNi(e)), TL(TNi(opImport), TNi(0), TNi(e), TNi(1)))
+		}
+		ops = append(ops, TL(TNi(opAttach), TNi(1), TNi(0)))
+		ops = append(ops, pairedQueries(sg, g, 0, 1, pool)...)
+		for k, n := 0, 1+g.Intn(5); k < n; k++ {
+			ops = append(ops, sg.extra(g, g.Intn(2), pool)...)
+			ops = append(ops, pairedQueries(sg, g, 0, 1, pool)...)
+			if g.Chance(0.2) {
+				ops = append(ops, TL(TNi(opAttach), TNi(1), TNi(g.Intn(2))))
+			}
 		}
 		return &Case{Ops: ops}
 	}
@@ -369,7 +415,7 @@ func monitorPersist(sg structGen, prop string) Monitor {
 				}
 				readDone = true
 			case opImport:
-				if prop == "C10" {
+				if prop == "C10" && o.String() != "(9)" {
 					if !isOk(o) {
 						out = append(out, MonViolation{name + "/Import/error", "Import of an exported document failed: " + o.String(), step})
 					}
@@ -395,6 +441,10 @@ func monitorPersist(sg structGen, prop string) Monitor {
 					if (okPayload(obs[step+1]).U() != 0) != eq {
 						out = append(out, MonViolation{name + "/Equals/asymmetric", "Equals(a,b) differs from Equals(b,a)", step})
 					}
+				}
+			case opAttach:
+				if prop == "C09" && o.String() != "(9)" && !isOk(o) {
+					out = append(out, MonViolation{name + "/attach/fails", "re-attachment through the metadata key failed: " + o.String(), step})
 				}
 			case opPrefixBin, opPrefixJS:
 				if prop != "C18" || o.Kind != 2 || outcomeKind(o) >= 0 {
@@ -433,7 +483,10 @@ func monitorPersist(sg structGen, prop string) Monitor {
 			if c := ops[step].L[0].I(); (c == opReadFrom || c == opImport) && isOk(obs[step]) {
 				reloaded = true
 			}
-			if (prop == "C11" || prop == "C10") && !reloaded {
+			if c := ops[step].L[0].I(); c == opAttach && isOk(obs[step]) {
+				reloaded = true
+			}
+			if (prop == "C11" || prop == "C10" || prop == "C09") && !reloaded {
 				continue
 			}
 			if ops[step].L[0].I() == opEquals && isOk(obs[step]) {
@@ -447,6 +500,9 @@ func monitorPersist(sg structGen, prop string) Monitor {
 				continue
 			}
 			switch prop {
+			case "C09":
+				out = append(out, MonViolation{name + "/attach/handles-disagree",
+					fmt.Sprintf("%s answers %s through the creating handle and %s through the re-attached one", sg.opName(ops[step]), trunc(va), trunc(vb)), step})
 			case "C11", "C10":
 				out = append(out, MonViolation{name + "/query/reloaded-answers-differ" + qualQ,
 					fmt.Sprintf("%s answers %s on the original and %s on the reloaded structure", sg.opName(ops[step]), trunc(va), trunc(vb)), step})
@@ -457,7 +513,29 @@ func monitorPersist(sg structGen, prop string) Monitor {
 				}
 			}
 		}
-		// C17: identical twins must be equal (first Equals pair directly after identical builds)
+		// Redis: an import under new keys must leave the exporter untouched
+		if sg.redis && prop == "C10" {
+			for t, op := range ops {
+				if op.L[0].I() != opImport || !isOk(obs[t]) {
+					continue
+				}
+				L := 0
+				for t+1+L < len(ops) && sg.isQuery(ops[t+1+L]) && ops[t+1+L].L[1].String() == "0" {
+					L++
+				}
+				for j := 0; j < L; j++ {
+					b := t - 1 - L + j
+					if b < 0 || ops[b].String() != ops[t+1+j].String() {
+						continue
+					}
+					va, vb := queryValue(ops[b], obs[b]), queryValue(ops[t+1+j], obs[t+1+j])
+					if va != vb {
+						out = append(out, MonViolation{name + "/Import/exporter-modified",
+							fmt.Sprintf("%s on the exporting structure answered %s before and %s after the import", sg.opName(ops[b]), trunc(va), trunc(vb)), t})
+					}
+				}
+			}
+		}
 		return out
 	}
 }
